@@ -125,6 +125,8 @@ func finish(s *simrt.Sim, w *world.World, st Stats, deadlockIsViolation bool) Ou
 			out.Infra = f
 		case f.Kind == simrt.FailPanic && strings.HasPrefix(f.Msg, "fatal error: concurrent map"):
 			out.Viols = append(out.Viols, world.Violation{Prop: prop, Rule: "concurrent-map-access", Signature: prop + "/concurrent-map-access", Msg: f.Msg})
+		case f.Kind == simrt.FailPanic && strings.HasPrefix(f.Msg, "data race:"):
+			out.Viols = append(out.Viols, world.Violation{Prop: prop, Rule: "data-race", Signature: prop + "/data-race", Msg: f.Msg})
 		case f.Kind == simrt.FailPanic:
 			v := world.Violation{Prop: prop, Rule: "panic-in-goroutine", Signature: prop + "/goroutine-panic", Msg: fmt.Sprintf("a goroutine of the SDK panicked (process crash): %s\n%s", f.Msg, f.Stack)}
 			out.Viols = append(out.Viols, v)
@@ -168,4 +170,16 @@ func scale(o Opts, quick, thorough int) int {
 		return thorough
 	}
 	return quick
+}
+
+// panicKind names the signature tail of a run that ended in a goroutine panic: the happens-before
+// layer's two reports have their own names.
+func panicKind(msg string) string {
+	switch {
+	case strings.HasPrefix(msg, "fatal error: concurrent map"):
+		return "concurrent-map-access"
+	case strings.HasPrefix(msg, "data race:"):
+		return "data-race"
+	}
+	return "goroutine-panic"
 }
